@@ -454,6 +454,10 @@ def main_check(mod, tier, base_seed, workers=None, max_jobs=None):
           "%d steps, %.1fs, faults=%s" %
           (prop, tier, len(done), len(jobs), skipped, len(keys), steps, wall,
            json.dumps(dict(sorted(faults.items())))))
+    slow = sorted(done, key=lambda r: -r.get("wall", 0))[:3]
+    print("slowest runs: " + "; ".join(
+        "%.1fs %s" % (r.get("wall", 0), json.dumps(r["job"], sort_keys=True))
+        for r in slow))
     if weak:
         print("weak_probe: " + ", ".join(weak))
     for line in viol_lines:
